@@ -13,15 +13,15 @@ def handler (mode : String) (line : String) : String :=
   match mode with
   | "model" =>
       match (parse line).bind caseOf? with
-      | some p => if p.ext then "(unmodelled-op)" else toStr (obsT (observe p.case (run p.case)))
+      | some c => toStr (obsT (observe c (run c)))
       | none => "(bad-case)"
   | "oracle" =>
       match line.splitOn "\t" with
       | [c, o] =>
           match (parse c).bind caseOf? with
-          | some p =>
+          | some c =>
               match (parse o).bind obsOf? with
-              | some obs => verdictStr (Spec.check p.case obs)
+              | some obs => verdictStr (Spec.check c obs)
               | none => "fail idx=0 pos=0 clause=unparsable-observation"
           | none =>
               -- an ill-formed case must be refused by the implementation harness as well
